@@ -334,3 +334,83 @@ Section RasterGen.
       rewrite !(lead_zero_cumsum (fun i => I i j)) by lia; rewrite (Z.add_comm w r); reflexivity.
   Qed.
 End RasterGen.
+
+(* ------------------------------------------------------------------ compute_std_raster *)
+
+Lemma zsum_nonneg : forall {X} (f : X -> Z) l, (forall x, In x l -> 0 <= f x) -> 0 <= zsum (map f l).
+Proof.
+  induction l as [|a l IH]; intros H; cbn [map zsum]; [lia|].
+  pose proof (H a (or_introl eq_refl)). assert (0 <= zsum (map f l)) by (apply IH; intros; apply H; now right). lia.
+Qed.
+
+Lemma wsum_sq_nonneg : forall w (F : Z -> Z -> Z) r c, 0 <= wsum w (fun rr cc => F rr cc * F rr cc) r c.
+Proof. intros. unfold wsum. apply zsum_nonneg. intros a _. apply zsum_nonneg. intros b _. nia. Qed.
+
+Lemma qltb_comp : forall x x' y y', (x == x')%Q -> (y == y')%Q -> qltb x y = qltb x' y'.
+Proof. intros x x' y y' Hx Hy. unfold qltb. rewrite Hx, Hy. reflexivity. Qed.
+
+Lemma qltb_lt : forall x y, qltb x y = true -> (x < y)%Q.
+Proof.
+  intros x y H. unfold qltb in H. apply Qnot_le_lt. intros L. apply Qle_bool_iff in L. rewrite L in H. discriminate.
+Qed.
+
+(* the variance of a window (times w^4) V >= 0 and the sum of squares M2 >= 0, w^2 = Zpos p: the relative threshold
+   10^-15 |E[x^2]| is not reached by a non-zero variance as long as w^2 * M2 < 10^15 *)
+Lemma std_threshold : forall (V M2 : Z) (p : positive), 0 <= V -> 0 <= M2 -> Zpos p * M2 < 10 ^ 15 ->
+  (inject_Z V / inject_Z (Zpos p * Zpos p) < (1 # 1000000000000000) * Qabs (inject_Z M2 / inject_Z (Zpos p)))%Q -> V = 0.
+Proof.
+  intros V M2 p HV HM Hb H.
+  change (Zpos p * Zpos p) with (Zpos (p * p)) in H. rewrite <- !Qmake_div in H.
+  unfold Qabs in H. rewrite (Z.abs_eq M2 HM) in H. unfold Qlt, Qmult in H. cbn [Qnum Qden] in H.
+  change (10 ^ 15) with 1000000000000000 in Hb.
+  rewrite Pos2Z.inj_mul in H. rewrite (Pos2Z.inj_mul p p) in H.
+  assert (0 < Zpos p) by lia. nia.
+Qed.
+
+Section StdGen.
+  Variables (w ny nx : Z).
+  Hypotheses (Hw : 0 < w) (Hny : w <= ny) (Hnx : w <= nx).
+
+  (* compute_std_raster returns the square root of an array that is valid, (ny - (w-1)) x (nx - (w-1)), and holds at
+     (r, c): E[x^2] - E[x]^2 = V / w^4 (V = the model's var_raster) -- or 0 where that is below 10^-15 |E[x^2]|;
+     as long as w^2 * (sum of the squares of the window) < 10^15 the clamp only ever replaces a zero by a zero *)
+  Lemma gen_std_raster_var_is : forall a I, is_arr a ny nx I ->
+    let g := GF.compute_std_raster_var a w in
+    a_ok g = true /\ a_nr g = ny - (w - 1) /\ a_nc g = nx - (w - 1)
+    /\ forall r c, 0 <= r -> 0 <= c ->
+       let M2 := sum_raster w ny nx (fun rr cc => I rr cc * I rr cc) r c in
+       let v := (inject_Z (var_raster w ny nx I r c) / inject_Z (w * w * (w * w)))%Q in
+       (a_at g r c == if qltb v ((1 # 1000000000000000) * Qabs (inject_Z M2 / inject_Z (w * w))) then 0 else v)%Q
+       /\ (w * w * M2 < 10 ^ 15 -> (a_at g r c == v)%Q).
+  Proof.
+    intros a I Ha. cbv zeta. unfold GF.compute_std_raster_var. cbv zeta.
+    pose proof (gen_mean_raster_is w ny nx Hw Hny Hnx a I Ha) as (Mok & Mr & Mc & Mat).
+    pose proof (gen_mean_raster_is w ny nx Hw Hny Hnx _ _ (is_sq _ _ _ _ Ha)) as (Sok & Sr & Sc & Sat).
+    set (m := GF.compute_mean_raster a w) in *. set (m2 := GF.compute_mean_raster (np_sq a) w) in *.
+    unfold np_set_where, npq_lt, npq_scale, npq_abs, npq_sub, npq_sq, np_zip, np_map, same_shape.
+    cbn [a_ok a_nr a_nc a_at]. rewrite Mok, Sok, Mr, Mc, Sr, Sc.
+    split; [lia|]. split; [reflexivity|]. split; [reflexivity|].
+    intros r c R0 C0. rewrite (Mat r c R0 C0), (Sat r c R0 C0).
+    set (S1 := sum_raster w ny nx I r c).
+    set (M2 := sum_raster w ny nx (fun r0 c0 => I r0 c0 * I r0 c0) r c).
+    assert (W2 : 0 < w * w) by nia.
+    assert (Ev : (inject_Z M2 / inject_Z (w * w) - inject_Z S1 / inject_Z (w * w) * (inject_Z S1 / inject_Z (w * w))
+                  == inject_Z (var_raster w ny nx I r c) / inject_Z (w * w * (w * w)))%Q).
+    { unfold var_raster. cbv zeta. fold S1. fold M2.
+      unfold Z.sub. rewrite inject_Z_plus, inject_Z_opp, !inject_Z_mult. field.
+      intros E. unfold Qeq in E. cbn [Qnum Qden inject_Z] in E. lia. }
+    set (v0 := (inject_Z M2 / inject_Z (w * w) - inject_Z S1 / inject_Z (w * w) * (inject_Z S1 / inject_Z (w * w)))%Q) in *.
+    set (v := (inject_Z (var_raster w ny nx I r c) / inject_Z (w * w * (w * w)))%Q) in *.
+    set (t := ((1 # 1000000000000000) * Qabs (inject_Z M2 / inject_Z (w * w)))%Q).
+    rewrite (qltb_comp v0 v t t Ev (Qeq_refl t)).
+    split.
+    - destruct (qltb v t); [reflexivity|exact Ev].
+    - intros Hb. destruct (qltb v t) eqn:E; [|exact Ev].
+      apply qltb_lt in E. subst v t.
+      destruct (w * w) as [|p|p] eqn:Ep; try lia.
+      assert (HV : 0 <= var_raster w ny nx I r c).
+      { rewrite var_raster_eq by lia. apply wsum_variance_nonneg. exact Hw. }
+      assert (HM : 0 <= M2) by (subst M2; rewrite sum_raster_eq by lia; apply wsum_sq_nonneg).
+      rewrite (std_threshold _ _ p HV HM Hb E). reflexivity.
+  Qed.
+End StdGen.
